@@ -47,6 +47,10 @@ def cases(tier, seed):
         for w in wq.QT8 + wq.QTB:
             for a in (None, "qint8"):
                 out.append(dict(kind="linear", dtype=dt, act=a, w=w))
+    for dt in ("float32", "float16"):
+        for a in ("qint8", "qfloat8_e4m3fn", "qfloat8_e5m2"):
+            for w in ("qint8", "qfloat8_e4m3fn"):
+                out.append(dict(kind="mm-dispatch", dtype=dt, act=a, w=w))
     out.append(dict(kind="int8pack-crash"))
     return out
 
@@ -297,6 +301,55 @@ def run_case(case, res):
             res.candidate("region-witness:unscaled-accumulation-overflow", "BIT", dict(kind="accuracy", dtype=case["dtype"], a=vals(A, a.dtype), a_dtype=str(a.dtype), w=vals(W, w.dtype), w_dtype=str(w.dtype), sw=vals(SW, dt), sa=vals(SA, dt) if sa is not None else None, bias=None), exact=False)
         return
 
+    if case["kind"] == "mm-dispatch":
+        # torch.mm / matmul / bmm on two quantized tensors (aten dispatch, not F.linear): equal to the product of the dequantized
+        # operands; term identity where the implementation dequantizes, otherwise finiteness (BIT) and a replayed tolerance
+        qa_t, qb_t = wq.qt(case["act"]), wq.qt(case["w"])
+        both_int = case["act"] == "qint8" and case["w"] == "qint8"
+        for opname, shapes in (("mm", ((2, 3), (3, 2))), ("matmul", ((2, 3), (3, 2))), ("bmm", ((1, 2, 3), (1, 3, 2)))) + ((("mm", ((24, 8), (8, 8))),) if both_int else ()):
+            da, sa = _act(case["act"], shapes[0], dt)
+            db, sb = _act(case["w"], shapes[1], dt)
+            with Session(res) as m:
+                A, B = m.symbolic(da, "a"), m.symbolic(db, "b")
+                SA, SB = m.symbolic(sa, "sa"), m.symbolic(sb, "sb")
+                qa = QBytesTensor(qa_t, None, da.size(), da.stride(), da, sa)
+                qb = QBytesTensor(qb_t, None, db.size(), db.stride(), db, sb)
+                fn = {"mm": torch.mm, "matmul": torch.matmul, "bmm": torch.bmm}[opname]
+                try:
+                    out = fn(qa, qb)
+                except Exception as e:  # noqa
+                    res.side_ok("mm-dispatch-runs", False, f"{opname} {case['act']} x {case['w']}: {type(e).__name__}: {e}")
+                    res.side[-1]["replayed"] = True
+                    res.candidate("mm-dispatch", "side", dict(kind="mm-dispatch", op=opname, dtype=case["dtype"], qa=case["act"], qb=case["w"], a=api.enc_tensor(da.float() if da.dtype.is_floating_point else da), b=api.enc_tensor(db.float() if db.dtype.is_floating_point else db), sa=api.enc_tensor(sa), sb=api.enc_tensor(sb)), exact=True)
+                    continue
+                ref = fn(qa.dequantize(), qb.dequantize())
+                O, R = m.read(out), m.read(ref)
+                R2 = R
+                if both_int:
+                    # the integer form whose accuracy the accuracy-int clause bounds: exact contraction, float32 scale product, one cast
+                    R2 = m.read((fn(da.to(torch.float32), db.to(torch.float32)) * (sa * sb).to(torch.float32)).to(dt))
+            cfg = f"{opname} {case['act']}{shapes[0]} x {case['w']}{shapes[1]}"
+            res.side_ok("mm-dispatch-shape-dtype", tuple(out.shape) == tuple(ref.shape) and out.dtype == ref.dtype, cfg)
+            if same(O, R) or same(O, R2):
+                res.query("mm-equals-dequantized-product", "ALG", "unsat", 0.0, sub=cfg)
+                continue
+            enc = dict(kind="mm-dispatch", op=opname, dtype=case["dtype"], qa=case["act"], qb=case["w"], a=api.enc_tensor(da.float() if da.dtype.is_floating_point else da), b=api.enc_tensor(db.float() if db.dtype.is_floating_point else db), sa=api.enc_tensor(sa), sb=api.enc_tensor(sb))
+            res.candidate("region-witness:mm-tolerance", "ALG", enc)
+            if dt in (torch.float16, torch.bfloat16) and not both_int:
+                b_ = bit.Bit(m.ctx)
+                pre = [fin(e) for e in (b_.tr(t) for t in list(A.reshape(-1)) + list(B.reshape(-1))) if z3.is_fp(e)]
+                for s_ in (SA, SB):
+                    e_ = b_.tr(s_.reshape(-1)[0])
+                    pre += [z3.fpGT(e_, z3.FPVal(2.0**-10, e_.sort())), z3.fpLT(e_, z3.FPVal(1.0, e_.sort()))]
+                goal = [z3.And(*[fin(b_.tr(t)) for t in R.reshape(-1)]), z3.Or(*[z3.Not(fin(b_.tr(t))) for t in O.reshape(-1)])]
+                v, secs, mdl = api.solve(list(b_.side) + pre + goal, 120)  # side (float8 grid membership) is complete only after every translation
+                res.query("mm-finite-when-dequantized-product-is", "BIT", v, secs, sub=cfg)
+                if v == "sat":
+                    def vals(arr, tt):
+                        return api.enc_tensor(api.tensor_from_values(api.model_values(b_, mdl, arr), tuple(np.asarray(arr).shape), torch.float32 if tt.dtype in (tm.E4M3, tm.E5M2) else tt.dtype))
+                    res.candidate("mm-dispatch", "BIT", dict(enc, a=vals(A, da), b=vals(B, db), sa=vals(SA, sa), sb=vals(SB, sb)), exact=True)
+        return
+
     if case["kind"] == "linear":
         from optimum.quanto import quantize_activation, quantize_weight
 
@@ -318,6 +371,16 @@ def run_case(case, res):
                     y2 = torch.nn.functional.linear(xin, qw, bias)
                     winner2 = [m.read(t) for t in ((qw._data, qw._scale) if q_w.bits == 8 else (qw._data._data, qw._scale, qw._zeropoint))]
                     Y1, Y2 = m.read(y1), m.read(y2)
+                    # history: overwrite the same quantized weight in place, multiply again: must be what a fresh weight gives
+                    stale = None
+                    if q_w.bits == 8:
+                        w2 = (torch.randn(3, 4) * 0.7).to(dt)
+                        W2 = m.symbolic(w2, "w2")
+                        qw.copy_(quantize_weight(w2, q_w, 0))
+                        y3 = torch.nn.functional.linear(xin, qw, bias)
+                        y4 = torch.nn.functional.linear(xin, quantize_weight(w2, q_w, 0), bias)
+                        stale = not same(m.read(y3), m.read(y4))
+                        qw = quantize_weight(w, q_w, 0)
                     xd = xin.dequantize() if case["act"] else x
                     ref = torch.matmul(xd, qw.dequantize().t())
                     if bias is not None:
@@ -327,6 +390,10 @@ def run_case(case, res):
                 res.side_ok("linear-output-shape-dtype", ok_meta, f"{cfg}: {tuple(y1.shape)} {y1.dtype} vs {tuple(ref.shape)} {ref.dtype}")
                 pure = same(Y1, Y2) and all(same(p, q_) for p, q_ in zip(winner, winner2))
                 res.query("linear-is-pure", "ALG", "unsat" if pure else "sat", 0.0, sub=cfg)
+                if stale is not None:
+                    res.query("linear-reflects-in-place-weight-update", "ALG", "unsat" if not stale else "sat", 0.0, sub=cfg)
+                    if stale:
+                        res.candidate("linear", "ALG", dict(kind="linear-update", dtype=case["dtype"], act=case["act"], wq=case["w"], x=api.enc_tensor(x), w=api.enc_tensor(w), w2=api.enc_tensor(w2), bias=api.enc_tensor(bias) if use_bias else None), note="result after an in-place weight update differs from a fresh weight")
                 enc = dict(kind="linear", dtype=case["dtype"], act=case["act"], wq=case["w"], x=api.enc_tensor(x), w=api.enc_tensor(w), bias=api.enc_tensor(bias) if use_bias else None)
                 if not pure or not ok_meta:
                     res.candidate("linear", "ALG", enc, note="second call differs / operand modified")
@@ -408,6 +475,40 @@ def replay(rec):
         if probs and unscaled > wq.fmt(mmdt)["fmax"] / 2 and all("inf" in p or "nan" in p for p in probs):
             key = ["C07/unscaled-accumulation-overflow"]
         return bool(probs), "\n".join(probs[:4]) or "all routes within accumulation error of the scale-corrected product", key
+    if inp["kind"] == "mm-dispatch":
+        from optimum.quanto.tensor import QBytesTensor
+
+        qa_t, qb_t = wq.qt(inp["qa"]), wq.qt(inp["qb"])
+        da, db = api.dec_tensor(inp["a"]).to(qa_t.dtype), api.dec_tensor(inp["b"]).to(qb_t.dtype)
+        sa, sb = api.dec_tensor(inp["sa"]), api.dec_tensor(inp["sb"])
+        qa = QBytesTensor(qa_t, None, da.size(), da.stride(), da, sa)
+        qb = QBytesTensor(qb_t, None, db.size(), db.stride(), db, sb)
+        fn = {"mm": torch.mm, "matmul": torch.matmul, "bmm": torch.bmm}[inp["op"]]
+        try:
+            out = fn(qa, qb).double()
+        except Exception as e:  # noqa
+            return True, f"{inp['op']} on quantized operands raised {type(e).__name__}: {e}", None
+        A_, B_ = qa.dequantize().double(), qb.dequantize().double()
+        ref = fn(A_, B_)
+        mag = fn(A_.abs(), B_.abs())
+        f = wq.fmt(dt)
+        ref_dt = fn(qa.dequantize(), qb.dequantize())  # the reference evaluated in the output dtype: finite means representable
+        bad = (((out - ref).abs() > (A_.shape[-1] + 8) * 2.0 ** -f["p"] * mag + 1e-30) & (mag < f["fmax"] / 4)) | (~torch.isfinite(out) & torch.isfinite(ref_dt))
+        return bool(bad.any()), f"{inp['op']}({inp['qa']}, {inp['qb']}) = {out.tolist()} but the product of the dequantized operands is {ref.tolist()}", None
+    if inp["kind"] == "linear-update":
+        from optimum.quanto import quantize_activation, quantize_weight
+
+        x, w, w2 = api.dec_tensor(inp["x"]), api.dec_tensor(inp["w"]), api.dec_tensor(inp["w2"])
+        bias = api.dec_tensor(inp["bias"]) if inp["bias"] is not None else None
+        q_w = wq.qt(inp["wq"])
+        xin = quantize_activation(x, wq.qt(inp["act"]), torch.tensor(0.05, dtype=dt)) if inp["act"] else x
+        qw = quantize_weight(w, q_w, 0)
+        torch.nn.functional.linear(xin, qw, bias)
+        qw.copy_(quantize_weight(w2, q_w, 0))
+        y3 = torch.nn.functional.linear(xin, qw, bias)
+        y4 = torch.nn.functional.linear(xin, quantize_weight(w2, q_w, 0), bias)
+        bad = not torch.equal(y3, y4)
+        return bad, f"after overwriting the quantized weight in place linear gives {y3.tolist()}, a fresh weight gives {y4.tolist()}", None
     if inp["kind"] == "linear":
         from optimum.quanto import quantize_activation, quantize_weight
 
